@@ -671,9 +671,9 @@ theorem flattenedSumLoop_eval : ∀ (fuel : Nat) (queue done : List Expr),
       · split
         · rename_i cs hnz
           simp only [Expr.size] at h
-          rw [flattenedSumLoop_eval fuel (queue ++ cs) done
+          rw [flattenedSumLoop_eval fuel (cs ++ queue) done
             (by rw [Expr.sizeL_append]; omega)]
-          simp only [evalSum, evalSum_append, evalR]; ring
+          simp only [evalSum, evalSum_append, evalR]
         · rw [flattenedSumLoop_eval fuel queue (done ++ [item]) (by omega)]
           simp only [evalSum, evalSum_append, add_zero]; ring
 
@@ -713,11 +713,11 @@ theorem flattenedProductLoop_eval : ∀ (fuel : Nat) (queue done : List Expr),
         · split
           · rename_i cs hnz hn1
             simp only [Expr.size] at h
-            have ih := flattenedProductLoop_eval fuel (queue ++ cs) done
+            have ih := flattenedProductLoop_eval fuel (cs ++ queue) done
               (by rw [Expr.sizeL_append]; omega)
-            have e : evalProd ρ done * evalProd ρ (queue ++ cs) =
+            have e : evalProd ρ done * evalProd ρ (cs ++ queue) =
                 evalProd ρ done * evalProd ρ (Expr.nary NaryOp.prod cs :: queue) := by
-              simp only [evalProd, evalProd_append, evalR]; ring
+              simp only [evalProd, evalProd_append, evalR]
             rw [e] at ih; exact ih
           · have ih := flattenedProductLoop_eval fuel queue (done ++ [item]) (by omega)
             have e : evalProd ρ (done ++ [item]) * evalProd ρ queue =
